@@ -31,6 +31,18 @@ def strings(maxlen):
             yield t
 
 
+def attack_strings():
+    """the Attacks set of Quote.tla: quote run + payload + quote run"""
+    out = []
+    for q1 in ('sq', 'dq'):
+        for q2 in ('sq', 'dq'):
+            for n1 in range(1, 5):
+                for n2 in range(0, 5):
+                    for mid in (('na',), ('bs', 'na'), ('na', 'bs'), ('nl', 'na')):
+                        out.append((q1,) * n1 + mid + (q2,) * n2)
+    return out
+
+
 def contexts(s):
     """source texts that contain the string s (and its latin-1 bytes) in each evaluated context; derived via ast.unparse of a
     constructed tree and then *parsed as text* by minify() - the input is always text"""
@@ -99,10 +111,16 @@ def run(args, rep):
         for vi, s in enumerate(variants):
             for ctx, src in contexts(s):
                 jobs.append({'id': 'q:%s:%d:%s' % ('.'.join(t), vi, ctx), 'src': src, 'opts': {}})
+    natt = 0
+    for t in attack_strings():
+        natt += 1
+        for vi, s in enumerate([''.join(CH[c] for c in t), ''.join(PAYLOAD if c == 'na' else CH[c] for c in t)]):
+            for ctx, src in contexts(s):
+                jobs.append({'id': 'a:%s:%d:%s' % ('.'.join(t), vi, ctx), 'src': src, 'opts': {}})
     if args.tier == 'quick':
         rng.shuffle(jobs)
-        keep = [j for j in jobs if j['id'].count('.') <= 1]
-        rest = [j for j in jobs if j['id'].count('.') > 1]
+        keep = [j for j in jobs if j['id'].count('.') <= 1 or j['id'].startswith('a:')]
+        rest = [j for j in jobs if j['id'].count('.') > 1 and not j['id'].startswith('a:')]
         jobs = keep + rest[:9000]
     for k, src in enumerate(FOLD_ATTACKS):
         for on, o in (('default', {}), ('all', local.ALL_ON)):
@@ -137,7 +155,7 @@ def run(args, rep):
     rep.rule = ('every string over 11 character classes up to length %d (%d strings; the non-ASCII class additionally as an import payload) in 9 contexts '
                 '[quick: all of length <= 2 and a seeded 9 000 of the rest], folding attacks, shape bank, pinned corpus; every minify() call runs under the '
                 'audit-hook monitor; non-trivial = inputs during which at least one eval happened' % (maxlen, nstr))
-    rep.extra.update({'exec_events_observed': total_exec, 'strings_enumerated': nstr, 'corpus_skipped': skipped,
+    rep.extra.update({'exec_events_observed': total_exec, 'strings_enumerated': nstr, 'attack_strings': natt, 'corpus_skipped': skipped,
                       'checker_cmd': 'tlc Quote.tla (%s); tlc Trace_Eval.tla over audit-event traces' % cfg})
     rep.assumptions += ['audit hooks (sys.addaudithook) report every compile/exec/import/open; CPython >= 3.8 only (orchestrator interpreter 3.12)',
                         'loading of the minifier\'s own modules from disk is not input-derived and is not judged (paths are checked for canaries)',
